@@ -1,6 +1,6 @@
 SPECIFICATION Spec
 CONSTANT MaxReq = 2
-CONSTANT Depth = 9
+CONSTANT Depth = 8
 CONSTRAINT Bound
 VIEW View
 INVARIANT OneAtATime
